@@ -44,9 +44,19 @@ Theorem C03_type_parser_with_recovery_is_total : forall ts, last_eof ts -> exist
 Proof. exact parse_typeR_total. Qed.
 Print Assumptions C03_type_parser_with_recovery_is_total.
 
-(* the statement family (Parse/StmtModel.v): its only loop, over a dotted name, is bounded by the input -- the parser of these sixteen
-   statements never exhausts its fuel, on any token list *)
+(* the statement family (Parse/StmtModel.v): its loops -- over a dotted name and over comma-separated lists (renamings, privileges, columns,
+   names, roles), nested two deep -- are bounded by the input: the parser of these twenty statements never exhausts its fuel, on any token list *)
 From Verif Require Import Parse.StmtModel Parse.StmtProofs.
 Theorem C03_statement_family_terminates : forall ts, ddl_body ts <> Some Fuel.
 Proof. exact ddl_body_nofuel. Qed.
 Print Assumptions C03_statement_family_terminates.
+
+(* parseCommaSeparatedList, the loop behind every comma-separated list of the parser, as modelled in Parse/StmtModel.v: for ANY item parser
+   that itself terminates, never grows the input and never accepts an item that starts with a comma, the list parser terminates on every
+   token list with the fuel the model gives it (one more than the number of tokens) *)
+Theorem C03_comma_separated_lists_terminate : forall (A : Type) (item : toks -> ExprModel.res (A * toks)),
+  (forall ts, item ts <> Fuel) ->
+  (forall ts x r, item ts = Ok (x, r) -> (length r <= length ts)%nat /\ kis (cur ts) "," = false) ->
+  forall ts, comma_list item ts <> Fuel.
+Proof. exact @comma_list_nofuel. Qed.
+Print Assumptions C03_comma_separated_lists_terminate.
